@@ -166,8 +166,87 @@ def gapTable : List Bytes :=
 def gapTableFlat : List Bytes :=
   [bs "", bs " ", bs " ", bs "\t", bs "/*c*/", bs "/*c*/", bs "  ", bs "/**/", bs " /* a*b / * */ ", bs "\t/* x */ "]
 
-def gapAny (g : Gap) : Bytes := gapTable.getD (g % 10) []
-def gapFlat (g : Gap) : Bytes := gapTableFlat.getD (g % 10) []
+/-! #### arbitrary gaps
+
+  Gap numbers below 36 index the two tables above (one tape character per gap).  Every larger
+  number denotes a gap of the *general* grammar: any sequence of blank bytes, newlines, C comments
+  with any body that does not contain the closing pair, and C++ comments with any text up to the
+  newline (`decodeGap` is onto the piece lists; the byte string is the number's base-256
+  expansion under a sentinel digit).  In a newline-free ("flat") position a newline is rendered as
+  a blank and a C++ comment as a C comment. -/
+
+inductive GapPiece where
+  | ws (c : UInt8)
+  | nl
+  | block (body : Bytes)
+  | line (text : Bytes)
+  deriving Repr, Inhabited
+
+/-- NUL-free and without the pair `*/` -/
+def blockBodyOk : Bytes → Bool
+  | [] => true
+  | [c] => c != 0
+  | c :: d :: r => c != 0 && !(c == 42 && d == 47) && blockBodyOk (d :: r)
+
+def lineTextOk (t : Bytes) : Bool := t.all fun c => c != 0 && c != 10
+
+/-- the C-locale blanks other than newline -/
+def wsByteOk (c : UInt8) : Bool := c == 32 || c == 9 || c == 11 || c == 12 || c == 13
+
+def renderPiece (flat : Bool) : GapPiece → Bytes
+  | .ws c => [if wsByteOk c then c else 32]
+  | .nl => if flat then [32] else [10]
+  | .block body => [47, 42] ++ (if blockBodyOk body then body else []) ++ [42, 47]
+  | .line t =>
+    if flat then [47, 42] ++ (if blockBodyOk t then t else []) ++ [42, 47]
+    else [47, 47] ++ (if lineTextOk t then t else []) ++ [10]
+
+def renderPieces (flat : Bool) : List GapPiece → Bytes
+  | [] => []
+  | p :: ps => renderPiece flat p ++ renderPieces flat ps
+
+def natBytes (n : Nat) : Bytes :=
+  if h : n = 0 then [] else UInt8.ofNat (n % 256) :: natBytes (n / 256)
+termination_by n
+decreasing_by omega
+
+/-- little-endian base-256 value -/
+def bytesNat : Bytes → Nat
+  | [] => 0
+  | c :: r => c.toNat + 256 * bytesNat r
+
+/-- wire form of a piece list: tag byte 0 + the blank byte, tag 1 (newline), tag 2 / 3 + the
+    comment body / text + a NUL (a body with a NUL is not a comment anyway) -/
+def encodePieces : List GapPiece → Bytes
+  | [] => []
+  | .ws c :: ps => 0 :: c :: encodePieces ps
+  | .nl :: ps => 1 :: encodePieces ps
+  | .block b :: ps => 2 :: (b ++ 0 :: encodePieces ps)
+  | .line t :: ps => 3 :: (t ++ 0 :: encodePieces ps)
+
+def decodePieces : Nat → Bytes → List GapPiece
+  | 0, _ => []
+  | _, [] => []
+  | f + 1, t :: rest =>
+    match t.toNat % 4 with
+    | 0 => (match rest with
+            | [] => [.ws 32]
+            | c :: r => .ws c :: decodePieces f r)
+    | 1 => .nl :: decodePieces f rest
+    | 2 => .block (rest.takeWhile (· != 0)) :: decodePieces f ((rest.dropWhile (· != 0)).drop 1)
+    | _ => .line (rest.takeWhile (· != 0)) :: decodePieces f ((rest.dropWhile (· != 0)).drop 1)
+
+def decodeGap (n : Nat) : List GapPiece :=
+  let d := (natBytes n).dropLast
+  decodePieces d.length d
+
+/-- the gap number of a piece list -/
+def gapOfPieces (ps : List GapPiece) : Nat := 36 + bytesNat (encodePieces ps ++ [1])
+
+def gapAny (g : Gap) : Bytes :=
+  if g < 36 then gapTable.getD (g % 10) [] else renderPieces false (decodeGap (g - 36))
+def gapFlat (g : Gap) : Bytes :=
+  if g < 36 then gapTableFlat.getD (g % 10) [] else renderPieces true (decodeGap (g - 36))
 
 def lastByte : Bytes → Option UInt8
   | [] => none
